@@ -4,6 +4,7 @@ import (
 	"errors"
 	"fmt"
 	"iter"
+	"slices"
 	"sort"
 	"strings"
 
@@ -220,12 +221,15 @@ func (m *Meta) Equals(other *Meta) bool {
 }
 
 func (m *Meta) String() string {
-	sort.Strings(m.Keys)
+	// sort a copy: reading must not modify the (possibly shared) Meta
+	keys := slices.Clone(m.Keys)
+	sort.Strings(keys)
 
 	buf := strings.Builder{}
 	buf.WriteString("{")
 
-	for key, node := range m.Values {
+	for _, key := range keys {
+		node := m.Values[key]
 		buf.WriteString("\n\t")
 		buf.WriteString(key)
 		buf.WriteString(": ")
